@@ -187,7 +187,31 @@ func checkOne(src string, o prog.Options) (diff string, ran bool, nontrivial boo
 	}
 	a := execute(p)
 	b := execute(p2)
-	return diffObs(a, b), true, len(a.trace) > 0 || a.err != "" || a.funcs != ""
+	if d := diffObs(a, b); d != "" {
+		return d, true, true
+	}
+	// Executing a program (which may decode its position tables for a
+	// backtrace, bind its loads, ...) must not change what is written
+	// afterwards, nor what a second execution observes.
+	for i, q := range []*starlark.Program{p, p2} {
+		var bn bytes.Buffer
+		if err := q.Write(&bn); err != nil {
+			return fmt.Sprintf("Write after execution failed (program %d): %v", i, err), true, true
+		}
+		if !bytes.Equal(bn.Bytes(), b1.Bytes()) {
+			return fmt.Sprintf("the bytes written after executing the program (%s) differ from the bytes written before: %d bytes vs %d bytes", []string{"original", "reloaded"}[i], bn.Len(), b1.Len()), true, true
+		}
+	}
+	p3, err := starlark.CompiledProgram(bytes.NewReader(b1.Bytes()))
+	if err != nil {
+		return "second CompiledProgram failed: " + err.Error(), true, true
+	}
+	for i, q := range []*starlark.Program{p, p2, p3} {
+		if d := diffObs(a, execute(q)); d != "" {
+			return fmt.Sprintf("execution number 2 of the %s program differs from the first: %s", []string{"original", "reloaded", "freshly reloaded"}[i], d), true, true
+		}
+	}
+	return "", true, len(a.trace) > 0 || a.err != "" || a.funcs != ""
 }
 
 func worker(c *fw.Ctx) *fw.Stats {
@@ -234,9 +258,9 @@ func worker(c *fw.Ctx) *fw.Stats {
 		st.Levels = append(st.Levels, "feature")
 		st.Count("programs.feature", int64(len(features())))
 	}
-	maxLevel := map[string]int{"expr": 4, "plus": 4, "assign": 3, "control": 4, "scope": 2, "call": 1, "load": 3, "comp": 2}
+	maxLevel := map[string]int{"expr": 4, "plus": 4, "assign": 3, "control": 4, "scope": 2, "call": 1, "load": 3, "comp": 2, "fold": 1, "escape": 2}
 	if c.Thorough() {
-		maxLevel = map[string]int{"expr": 5, "plus": 4, "assign": 3, "control": 5, "scope": 2, "call": 1, "load": 3, "comp": 3}
+		maxLevel = map[string]int{"expr": 5, "plus": 4, "assign": 3, "control": 5, "scope": 2, "call": 1, "load": 3, "comp": 3, "fold": 2, "escape": 2}
 	}
 	for level := 1; level <= 6; level++ {
 		for _, pf := range prog.Profiles() {
